@@ -118,6 +118,15 @@ Theorem C08_integer_longest_value :
   exists z, parse_int_base0 (take (ln_rpos nd - pos) (suffix (r_data r) (pos - r_offset r))) = Some z /\ ln_value nd = VInt z).
 Proof. exact (conj (integer_longest (fun _ => None) (fun _ => None)) (integer_value (fun _ => None) (fun _ => None))). Qed.
 Print Assumptions C08_integer_longest_value.
+(* int_lexeme against a declarative grammar: the recogniser returns the LONGEST prefix that is
+   sign? ( nonzero-digit digit* | 0 (x|X) hexdigit+ | 0 octaldigit* ), or None when no prefix is one *)
+Theorem C08_integer_lexeme_is_longest : forall s,
+  match int_lexeme s with
+  | Some n => n <= len_N s /\ is_int_lit (take n s) /\ forall m, m <= len_N s -> is_int_lit (take m s) -> m <= n
+  | None => forall m, m <= len_N s -> ~ is_int_lit (take m s)
+  end.
+Proof. exact int_lexeme_longest. Qed.
+Print Assumptions C08_integer_lexeme_is_longest.
 (* every error of Integer (no literal, prefix of a float, outside int64) is at the position itself *)
 Theorem C08_integer_error_at_pos : forall (r : reader) (pos : N), in_dom r pos -> forall e0 n,
   p_integer r pos = Ok (n, Some e0) -> le_pos e0 = pos.
